@@ -170,6 +170,47 @@ theorem none_applied_rows {m : LMap} {R : List Id} (inv : RowsInv m [] R) : R = 
   apply List.eq_nil_iff_forall_not_mem.mpr
   intro x hx; have := (inv.rows x).mp hx; simp [IsMax] at this
 
+/-! ### C03 in terms of the history as written -/
+
+/-- **The invariant in the words of the property**: the version table holds, each once, exactly the
+applied revisions that no applied revision names — through a down-revision or a dependency, as
+written in the files — as a prerequisite.  (`RowsInv` is what `C03.step`, `upgrade_run`,
+`downgrade_run` establish after every step of every plan.) -/
+theorem rows_history {h : Hist} {o : LoadOpts} {m : LMap} (hl : load h o = .ok m)
+    (hu : (h.map (·.id)).Nodup) {A R : List Id} (inv : RowsInv m A R) :
+    R.Nodup ∧ ∀ x, x ∈ R ↔ x ∈ A ∧ ∀ c ∈ children h x, c ∉ A := by
+  refine ⟨inv.nodup, ?_⟩
+  intro x
+  rw [inv.rows x]
+  unfold IsMax
+  constructor
+  · rintro ⟨hxA, hmax⟩
+    refine ⟨hxA, ?_⟩
+    intro c hc hcA
+    have hcp : x ∈ parents h c := by
+      unfold children at hc
+      simpa using (List.mem_filter.mp hc).2
+    exact hmax c hcA ((allDownOf_mem_iff_parents hl hu c x).mpr hcp)
+  · rintro ⟨hxA, hnone⟩
+    refine ⟨hxA, ?_⟩
+    intro c hcA hxc
+    have hcp : x ∈ parents h c := (allDownOf_mem_iff_parents hl hu c x).mp hxc
+    have hcid : c ∈ ids h := by
+      unfold parents at hcp
+      cases hrev : revOf h c with
+      | none => simp [hrev] at hcp
+      | some rv =>
+        unfold revOf at hrev
+        have hm := List.mem_of_find?_eq_some hrev
+        have he := List.find?_some hrev
+        simp only [beq_iff_eq] at he
+        unfold ids
+        exact List.mem_map.mpr ⟨rv, hm, he⟩
+    have : c ∈ children h x := by
+      unfold children
+      exact List.mem_filter.mpr ⟨hcid, by simpa using hcp⟩
+    exact hnone c this hcA
+
 /-! ### the oracles `Spec.Rev.rowsOk` / `traceOk`, evaluated on the implementation's rows -/
 
 /-- **What a `true` verdict of the rows oracle means**: the version table is duplicate-free and
